@@ -158,7 +158,7 @@ pub fn case(ctx: &Ctx, shard: usize, index: u64, rep: &mut Report) {
     let sorenson = rng.chance(2, 3);
     let flavour = if sorenson { Flavour::Sor(rng.below(2) as u8) } else { Flavour::StdPlus };
     let (w, h) = gen_size(&mut rng, 56);
-    let (w, h) = if sorenson { (w, h) } else { (((w + 3) / 4 * 4).max(4), ((h + 3) / 4 * 4).max(4)) };
+    let (w, h) = if sorenson { (w, h) } else { (((w + 3) / 4 * 4).clamp(4, 2048), ((h + 3) / 4 * 4).clamp(4, 1152)) };
     let mut cfg = gen_cfg(&mut rng, flavour, w, h);
     cfg.pei = 0;
     // ---- history ----
@@ -314,8 +314,9 @@ fn split_case(ctx: &Ctx, shard: usize, index: u64, rep: &mut Report) {
     let mut rng = Rng::new(ctx.seed ^ 0xC055, ((shard as u64) << 40) | index);
     let sorenson = rng.chance(2, 3);
     let flavour = if sorenson { Flavour::Sor(rng.below(2) as u8) } else { Flavour::StdPlus };
-    let (w, h) = gen_size(&mut rng, 40);
-    let (w, h) = if sorenson { (w, h) } else { (((w + 3) / 4 * 4).max(4), ((h + 3) / 4 * 4).max(4)) };
+    let smax = if rng.chance(1, 8) { 64 } else { 40 };
+    let (w, h) = gen_size(&mut rng, smax);
+    let (w, h) = if sorenson { (w, h) } else { (((w + 3) / 4 * 4).clamp(4, 2048), ((h + 3) / 4 * 4).clamp(4, 1152)) };
     let mut cfg = gen_cfg(&mut rng, flavour, w, h);
     let with_hist = rng.chance(1, 2);
     let hist = gen_reference(&mut rng, &cfg).encode();
@@ -333,7 +334,23 @@ fn split_case(ctx: &Ctx, shard: usize, index: u64, rep: &mut Report) {
         return;
     }
     let want = one.snapshot();
-    for split in 0..pic.len() {
+    // small pictures: every split point; large ones: both ends, the neighbourhood of 4 KiB multiples and a sample
+    let splits: Vec<usize> = if pic.len() <= 600 {
+        (0..pic.len()).collect()
+    } else {
+        rep.count("split_large_pictures");
+        let mut v: Vec<usize> = (0..40).chain(pic.len() - 40..pic.len()).collect();
+        let mut k = 4096;
+        while k < pic.len() {
+            v.extend((k - 6..k + 6).filter(|x| *x < pic.len()));
+            k += 4096;
+        }
+        for _ in 0..64 {
+            v.push(rng.below(pic.len() as u64) as usize);
+        }
+        v
+    };
+    for split in splits {
         rep.evaluations += 1;
         let mut d = Dec::new(sorenson, false);
         if with_hist {
